@@ -93,6 +93,8 @@ def gen_simple(rng, names):
         i = rng.randint(0, len(n))
         j = rng.randint(i, len(n))
         mid = rng.choice([b"*", b"?", b"*", b"[" + (n[i:i + 1] or b"a") + b"b]", b"[a-c]", b"[A-Z]", b"[.-]"])
+        if rng.random() < 0.12:
+            mid = rng.choice(EDGE_POS + EDGE_NEG)
         return esc(n[:i]) + mid + esc(n[j:])
     if k < 0.6:
         return rng.choice([b"*", b"*.*", b"*.", b".*", b"?", b"a*", b"*a", b"*.a", b"[ab]", b"[a-b]*", b"a?", b"?.", b"*-*"])
@@ -299,6 +301,57 @@ def gen_blank_repo(rng):
                 tree[name] = "f"
     tree = {k: v for k, v in tree.items() if not (v == "f" and any(o.startswith(k + b"/") for o in tree))}
     return dict(tree=tree, ignores={b"": lines}, ci=False)
+
+
+# Bracket expressions at the edges of the class grammar.  gitignore(5) refers to fnmatch(3) / glob(7) for `[...]`:
+# "a ']' may be included in a bracket expression by placing it first (after the '!' or '^', if any)", both `!` and `^`
+# complement the class, a '-' that is first or last stands for itself.  globset documents `[!ab]`; its parser reads `^`
+# the same way.  The lists are spelled out (not derived from ripgrep's parser).
+EDGE_POS = [b"[]]", b"[]a]", b"[]-]", b"[]a-c]", b"[]-a]", b"[a-]", b"[-a]", b"[-]", b"[a-c-]", b"[-a-c]", b"[]ab-]",
+            b"[a-]]", b"[+-]]", b"[a^]", b"[a!]"]
+EDGE_NEG = [b"[!]]", b"[^]]", b"[!]a]", b"[^]a]", b"[!]-]", b"[^]-]", b"[^]a-c]", b"[!]a-c]", b"[!-a]", b"[^-a]", b"[^a-]",
+            b"[!a-]", b"[^a]", b"[!a]", b"[^a-c]", b"[!a-c]", b"[^]-a]", b"[!]ab-]", b"[^]ab-]", b"[^^]", b"[!!]", b"[^!]"]
+EDGE_BAD = [b"[b-a]", b"[", b"[^", b"[^]", b"[!]", b"[]", b"a\\", b"[]-", b"[^]-"]    # lines both tools reject or never match
+EDGE_PROBES = [b"]", b"-", b"a", b"b", b"c", b"^", b"!", b"+", b"1", b"[", b"z"]
+
+
+def gen_class_repo(rng):
+    """one or two ignore files in which a class line of the edge grammar stands NEXT TO ordinary rules (`*.log`, a
+    literal name, a re-inclusion): a line the glob machinery cannot digest must not take the other lines of its file
+    with it.  The tree holds, at depths 0-2, every one-character instantiation of the class position, so git and rg
+    are compared on each member/non-member; no directory is named like the literal prefix of the class line, so the
+    known finding ClassMatchesSeparator cannot be involved."""
+    k = rng.random()
+    cls = rng.choice(EDGE_NEG) if k < 0.55 else (rng.choice(EDGE_POS) if k < 0.9 else rng.choice(EDGE_BAD))
+    pre = rng.choice([b"n", b"n", b"x.", b""])
+    suf = rng.choice([b"m", b"m", b".y", b""])
+    if pre == b"" and suf == b"":
+        suf = b"m"
+    where = rng.choice([b"", b"", b"sub", b"sub/deep"])
+    tree = {b"sub": "d", b"sub/deep": "d", b"keep.txt": "f", b"a.log": "f", b"sub/b.log": "f", b"sub/deep/c.log": "f",
+            b"sub/keep": "f", b"sub/deep/keep": "f", b"lit": "f", b"sub/lit": "f"}
+    for d in (b"", b"sub/", b"sub/deep/"):
+        for c in EDGE_PROBES:
+            tree[d + pre + c + suf] = "f"
+        tree[d + pre + suf] = "f"
+        tree[d + pre + b"ab" + suf] = "f"
+    line = pre + cls + suf
+    form = rng.random()
+    if form < 0.2:
+        line = b"/" + line
+    elif form < 0.4 and where == b"":
+        line = rng.choice([b"sub/", b"sub/deep/", b"**/", b"sub/**/"]) + line
+    others = [b"*.log", rng.choice([b"lit", b"/lit", b"keep", b"*.txt"])]
+    lines = list(others)
+    lines.insert(rng.randint(0, len(lines)), line)
+    if rng.random() < 0.3:
+        lines = [pre + b"*" + suf] + lines[:]
+        lines[lines.index(line)] = b"!" + line
+    ignores = {where: lines}
+    if where != b"" and rng.random() < 0.5:
+        ignores[b""] = [b"*.log", pre + rng.choice(EDGE_POS + EDGE_NEG) + suf]
+    tree = {k: v for k, v in tree.items() if valid_name(k.split(b"/")[-1])}
+    return dict(tree=tree, ignores=ignores, ci=False)
 
 
 def gen_repo(rng, malformed):
@@ -511,12 +564,13 @@ def in_documented_grammar(line):
             j = i + 1
             if body[j:j + 1] in (b"!", b"^"):
                 j += 1
+            j0 = j                                 # members start here (a leading `]` is a member)
             if body[j:j + 1] == b"]":
                 j += 1
             k = body.find(b"]", j)
             if k < 0:
                 return False                       # unclosed class
-            cls = body[i + 1:k]
+            cls = body[j0:k]
             if b"\\" in cls or b"[" in cls:
                 return False
             for t in range(len(cls) - 2):
@@ -621,16 +675,32 @@ def check_repos(ctx, repos):
             rep = dict(kind=401, repo=show(repo), git=[x.decode("latin1") for x in gfiles],
                        rg=[x.decode("latin1") for x in rfiles], rg_stderr=rerr.decode("latin1")[:300])
             known = K_CLASS if K_CLASS in feats else (K_BRACE if K_BRACE in feats else None)
+            m_ok = not (m in ("MISSING", "STACKOVERFLOW", "PANIC") or m.startswith("PARSEFAIL"))
+            # what the walker model lists: the model mirrors the unpatched code INCLUDING the known findings (they are
+            # refuted by witness on the model), so a divergence from git is "known" only when rg does what the model does
+            model_files = None
+            if m_ok:
+                mv0 = list(parse_val(m)[1])
+                model_files = sorted(ents[i][0] for i in range(len(ents)) if ents[i][1] == "f" and mv0[i])
             # 1. the property: rg --files = git ls-files --others --exclude-standard
             if gfiles != rfiles:
-                if known:
+                if known and (model_files is None or model_files == rfiles):
                     ctx.known(known, "ignore files %r: git lists %r, rg lists %r" % (show(repo)["ignores"], rep["git"], rep["rg"]))
+                elif known:
+                    viol(ctx, "rg --files lists a different set of files than git ls-files --others --exclude-standard, "
+                              "and not the set the known finding %s (present in the model) explains" % known,
+                         dict(rep, model_lists=[x.decode("latin1") for x in model_files]))
                 elif grammar:
                     viol(ctx, "rg --files lists a different set of files than git ls-files --others "
                                   "--exclude-standard", rep)
                 else:
                     ctx.cov["undocumented_shape_divergences"] = ctx.cov.get("undocumented_shape_divergences", 0) + 1
-            if m in ("MISSING", "STACKOVERFLOW") or c in ("PANIC", "MISSING") or m.startswith("PARSEFAIL"):
+            # 1b. every line is a line of the documented grammar: rg has nothing to complain about (a line it cannot
+            # digest is reported on stderr; when the glob SET of a file cannot be built the whole file is dropped)
+            if grammar and K_BRACE not in feats and rerr.strip():
+                viol(ctx, "rg reports an error for ignore files whose lines are all lines of the documented grammar "
+                          "[stderr=%r]" % rerr.decode("latin1")[:160], rep, nfi=(gfiles == rfiles))
+            if not m_ok or c in ("PANIC", "MISSING"):
                 viol(ctx, "model/harness failure on a repository case: model=%s code=%s" % (m[:30], c[:30]), rep)
                 continue
             mv, cv = parse_val(m), parse_val(c)
@@ -921,6 +991,20 @@ CORPUS += [   # two `**/x/y/z`-style patterns of different lengths (one shared s
                b"d/a/b/ab/c": "f", b"d/b": "d", b"d/b/ab": "f"},
          ignores={b"": [b"**/a/b/ab/", b"**/b/ab", b"**/ab/c"]}, ci=False),
 ]
+CORPUS += [   # a `]` first in a class (after `!` / `^`, if any) is a member; `-` first or last is a member; the class
+              # line stands next to ordinary rules that must stay in force whatever happens to it
+    dict(tree={b"xby": "f", b"xay": "f", b"x]y": "f", b"xzy": "f", b"a.log": "f", b"keep.txt": "f", b"sub": "d", b"sub/b.log": "f",
+               b"sub/xqy": "f", b"sub/deep": "d", b"sub/deep/n1m": "f", b"sub/deep/n]m": "f", b"sub/deep/n-m": "f", b"sub/deep/keep": "f"},
+         ignores={b"": [b"x[!]a]y", b"*.log", b"sub/deep/n[^]-]m"]}, ci=False),
+    dict(tree={b"n]m": "f", b"n-m": "f", b"nam": "f", b"n^m": "f", b"a.log": "f", b"d": "d", b"d/nbm": "f", b"d/n]m": "f", b"d/b.log": "f"},
+         ignores={b"": [b"*.log", b"n[^]a]m"]}, ci=False),
+    dict(tree={b"n]m": "f", b"n-m": "f", b"nam": "f", b"nbm": "f", b"a.log": "f", b"d": "d", b"d/n-m": "f", b"d/n]m": "f", b"d/b.log": "f"},
+         ignores={b"": [b"n[]-]m", b"*.log"], b"d": [b"!n[]a-]m"]}, ci=False),
+    dict(tree={b"n]m": "f", b"n-m": "f", b"nam": "f", b"nbm": "f", b"n!m": "f", b"a.log": "f"},
+         ignores={b"": [b"n[a-]m", b"n[!]!]m", b"*.log"]}, ci=False),
+    dict(tree={b"]": "f", b"-": "f", b"a": "f", b"b.log": "f", b"d": "d", b"d/]": "f", b"d/c": "f"},
+         ignores={b"": [b"*.log", b"/[^]]"], b"d": [b"[]]"]}, ci=False),
+]
 CORPUS += [   # same-extension wildcard rules of opposite polarity: every matching rule must be found, the last one wins
     dict(tree={b"src": "d", b"src/main.rs": "f", b"src/mod.rs": "f", b"src/lib.rs": "f", b"src/a.rs": "f", b"src/keep.x": "f"},
          ignores={b"": [b"src/*.rs", b"!src/m*.rs"]}, ci=False),
@@ -945,18 +1029,20 @@ def run(ctx):
     check_repos(ctx, CORPUS)
     check_repos(ctx, KNOWN_CORPUS)
     n = ctx.count(220)
-    repos = [gen_idiom_repo(rng) if i % 5 == 0 else (gen_blank_repo(rng) if i % 7 == 3 else
+    repos = [gen_idiom_repo(rng) if i % 5 == 0 else (gen_class_repo(rng) if i % 7 == 2 else gen_blank_repo(rng) if i % 7 == 3 else
                                                       (gen_suffix_repo(rng) if i % 7 == 6 else
                                                        (gen_ext_rules_repo(rng) if i % 7 == 1 else gen_repo(rng, rng.random() < 0.25))))
              for i in range(n)]
     ctx.cov["suffix_table_repos"] = sum(1 for i in range(n) if i % 5 != 0 and i % 7 == 6)
     ctx.cov["blank_escape_repos"] = sum(1 for i in range(n) if i % 5 != 0 and i % 7 == 3)
     ctx.cov["idiom_repos"] = sum(1 for i in range(n) if i % 5 == 0)
+    ctx.cov["class_edge_repos"] = sum(1 for i in range(n) if i % 5 != 0 and i % 7 == 2)
     check_repos(ctx, repos)
     check_one_file(ctx, CORPUS + KNOWN_CORPUS + repos)
     names = [x for x in NAME_POOL]
     check_nested(ctx, NESTED_CORPUS + [gen_nested(rng) for _ in range(ctx.count(40))])
     al = [(rng.random() < 0.2, gen_line(rng, names, rng.random() < 0.3)) for _ in range(ctx.count(600))]
+    al = [(False, b"n" + c + b"m") for c in EDGE_POS + EDGE_NEG + EDGE_BAD] + [(True, b"[^]-]"), (True, b"[]-]*")] + al
     check_add_line(ctx, al)
     check_line_class(ctx, al + [(r["ci"], l) for r in CORPUS + repos for ls in r["ignores"].values() for l in ls])
     flush_pending(ctx)
